@@ -151,6 +151,7 @@ TABLE = [
      re.compile(r'(self\.sizes_info\s*\.as_ref\(\))\s*\.is_none_or\(\|(\w+)\| (.*?)\)\n'), r'(match \1 { None => true, Some(\2) => \3 })\n'),
     ('R14', 'X.is_some_and(F) -> match X { Some(v) => F(v), None => false }  (definition of the std method)',
      re.compile(r'(self\.sizes_info\.as_ref\(\))\.is_some_and\(([\w:]+)\)'), r'(match \1 { Some(v) => \2(v), None => false })'),
+    ('R11', 'X.to_be_bytes() -> vu32_to_be_bytes(X)', re.compile(r'\b(current_ctr)\.to_be_bytes\(\)'), r'vu32_to_be_bytes(\1)'),
     ('R5', 'i64::try_from(u64) -> vconv', re.compile(r'\bi64::try_from\('), 'vconv_i64_try_from_u64('),
 ]
 
